@@ -192,6 +192,16 @@ class Crate(PaneBase, Generic[T]):
     inner: Box[T]
     many: List[Box[T]] = field(default_factory=list)
 
+class Wrap(PaneBase, Generic[T]):
+    inner: T
+
+class Deep2(PaneBase, Generic[T]):
+    nested: Box[Wrap[T]]                      # T sits two parameterised dataclasses deep
+    both: Dict[str, Box[Wrap[T]]] = field(default_factory=dict)
+
+class Deep2Fwd(Deep2[U]):
+    pass
+
 class Swapped(P[U, T]):
     """re-uses the base's own type variable names, permuted"""
 
@@ -205,7 +215,7 @@ class Deeper(Deep[T]):
     m: Optional[T] = None
 '''
 exec(_GEN_SRC, NS)
-G, H, HI, P, Q, FL, FL2, HH, Box, Crate, Swapped, Half, Deeper = (NS[k] for k in ('G', 'H', 'HI', 'P', 'Q', 'FL', 'FL2', 'HH', 'Box', 'Crate', 'Swapped', 'Half', 'Deeper'))
+G, H, HI, P, Q, FL, FL2, HH, Box, Crate, Swapped, Half, Deeper, Deep2, Deep2Fwd = (NS[k] for k in ('G', 'H', 'HI', 'P', 'Q', 'FL', 'FL2', 'HH', 'Box', 'Crate', 'Swapped', 'Half', 'Deeper', 'Deep2', 'Deep2Fwd'))
 
 # instantiation -> {field: kind}; kinds: 'int', 'str', 'float', 'list_int', 'list_str', 'opt_int', 'opt_str', 'dict_str'
 INST = {
@@ -456,16 +466,29 @@ for _w in range(3):
 
 CRATE_INT = Crate[int]
 make_converter(CRATE_INT)
+DEEP2 = (Deep2[int], Deep2Fwd[int])
+for _c in DEEP2:
+    make_converter(_c)
 
 
-@obligation(pre="0 <= k <= 5 and 0 <= where <= 1", witnesses=(0, -1), timeout=120)
+@obligation(pre="0 <= k <= 5 and 0 <= where <= 5", witnesses=(0, -1), timeout=120)
 def body_nested_generic(k: int, i: int, s: str, where: int) -> int:
-    """Crate[int] has inner: Box[int] and many: List[Box[int]]: the argument reaches the nested generic dataclass"""
+    """Crate[int] has inner: Box[int] and many: List[Box[int]]; Deep2[int] has nested: Box[Wrap[int]]: the argument reaches the nested generic dataclasses at any depth"""
     v = lf(k, i, s)
     want = isinstance(v, int)
-    data = {'inner': {'item': v}} if where == 0 else {'inner': {'item': 1}, 'many': [{'item': v}]}
+    cls = CRATE_INT
+    if where == 0:
+        data = {'inner': {'item': v}}
+    elif where == 1:
+        data = {'inner': {'item': 1}, 'many': [{'item': v}]}
+    else:
+        cls = DEEP2[0] if where <= 3 else DEEP2[1]
+        if where % 2 == 0:
+            data = {'nested': {'item': {'inner': v}}}
+        else:
+            data = {'nested': {'item': {'inner': 1}}, 'both': {'k': {'item': {'inner': v}}}}
     try:
-        CRATE_INT.from_data(data)
+        cls.from_data(data)
         ok = True
     except ConvertError:
         ok = False
@@ -479,8 +502,8 @@ def body_nested_generic(k: int, i: int, s: str, where: int) -> int:
 
 
 for _k in range(6):
-    try:
-        body_nested_generic(_k, 1, 'a', 0)
-        body_nested_generic(_k, 1, 'a', 1)
-    except Exception:
-        pass
+    for _w in range(6):
+        try:
+            body_nested_generic(_k, 1, 'a', _w)
+        except Exception:
+            pass
